@@ -1,0 +1,241 @@
+//go:build verif
+
+// Contracts for package cbor, checked by /verif/govc (see /verif/DESIGN.md).
+// Comment-only file: it adds nothing to any build.
+package cbor
+
+// ---- spec functions -------------------------------------------------------
+//@ spec macro be8(s) = uint64(s[0])<<56 | uint64(s[1])<<48 | uint64(s[2])<<40 | uint64(s[3])<<32 | uint64(s[4])<<24 | uint64(s[5])<<16 | uint64(s[6])<<8 | uint64(s[7])
+//@ spec macro be4(s) = uint64(s[0])<<24 | uint64(s[1])<<16 | uint64(s[2])<<8 | uint64(s[3])
+//@ spec macro be2(s) = uint64(s[0])<<8 | uint64(s[1])
+//@ spec macro be(s) = ite(len(s) == 8, be8(s), ite(len(s) == 4, be4(s), ite(len(s) == 2, be2(s), ite(len(s) == 1, uint64(s[0]), 0))))
+// big-endian value of 0..8 bytes, left-padded with zeros
+//@ spec macro padb(b, i) = ite(i >= 8 - len(b), uint64(b[i-(8-len(b))]), 0)
+//@ spec macro tou64(b) = padb(b, 0)<<56 | padb(b, 1)<<48 | padb(b, 2)<<40 | padb(b, 3)<<32 | padb(b, 4)<<24 | padb(b, 5)<<16 | padb(b, 6)<<8 | padb(b, 7)
+// number of additional head bytes announced by the low five bits
+//@ spec macro addlen(low) = ite(low == 24, 1, ite(low == 25, 2, ite(low == 26, 4, ite(low == 27, 8, 0))))
+// the low five bits written for a head carrying the given bytes
+//@ spec macro lowbits(info) = ite(len(info) == 1, ite(info[0] < 24, info[0], 24), ite(len(info) == 2, 25, ite(len(info) == 4, 26, 27)))
+// largest unsigned value representable by an integer kind (reflect.Kind)
+//@ spec macro umax(kind) = ite(kind == uint(reflect.Uint8), 255, ite(kind == uint(reflect.Uint16), 65535, ite(kind == uint(reflect.Uint32), 4294967295, ite(kind == uint(reflect.Uint) || kind == uint(reflect.Uint64), 18446744073709551615, ite(kind == uint(reflect.Int8), 127, ite(kind == uint(reflect.Int16), 32767, ite(kind == uint(reflect.Int32), 2147483647, 9223372036854775807)))))))
+//@ spec macro isintkind(kind) = kind == uint(reflect.Int) || kind == uint(reflect.Int8) || kind == uint(reflect.Int16) || kind == uint(reflect.Int32) || kind == uint(reflect.Int64)
+//@ spec macro isuintkind(kind) = kind == uint(reflect.Uint) || kind == uint(reflect.Uint8) || kind == uint(reflect.Uint16) || kind == uint(reflect.Uint32) || kind == uint(reflect.Uint64)
+// largest u such that -1-u is representable by a signed kind
+//@ spec macro nmax(kind) = ite(kind == uint(reflect.Int8), 127, ite(kind == uint(reflect.Int16), 32767, ite(kind == uint(reflect.Int32), 2147483647, 9223372036854775807)))
+
+// ---- encoder heads (C11: shortest form) -------------------------------------
+
+//@ func cbor.u64Bytes
+//@   props C11 C12(sweep) C10(sweep)
+//@   sweep bounds,panic
+//@   pure
+//@   ensures @lenset len(result) == 1 || len(result) == 2 || len(result) == 4 || len(result) == 8
+//@   ensures @value be(result) == u64
+//@   ensures @min1 len(result) == 1 <==> u64 < 1<<8
+//@   ensures @min2 len(result) == 2 <==> (u64 >= 1<<8 && u64 < 1<<16)
+//@   ensures @min4 len(result) == 4 <==> (u64 >= 1<<16 && u64 < 1<<32)
+//@   ensures @min8 len(result) == 8 <==> u64 >= 1<<32
+
+//@ func cbor.additionalInfo
+//@   props C11 C12(sweep) C10(sweep)
+//@   sweep bounds,panic
+//@   pure
+//@   requires @lenset len(info) == 1 || len(info) == 2 || len(info) == 4 || len(info) == 8
+//@   ensures @len len(result) == ite(len(info) == 1 && info[0] < 24, 1, 1 + len(info))
+//@   ensures @first result[0] == (majorType&7)<<5 | lowbits(info)
+//@   ensures @tail forall i in 1..len(result): result[i] == info[i-1]
+
+//@ func cbor.toU64
+//@   props C11 C12(sweep) C10(sweep)
+//@   sweep bounds,panic,make
+//@   pure
+//@   requires @len8 len(b) <= 8
+//@   ensures @value result == tou64(b)
+
+// head round trip: decoding the head written for x yields x, for every uint64
+//@ func cbor.headRoundTrip
+//@   nopaths
+
+// ---- decoder range checks (C11: sound and complete; C12: no panic) ---------
+
+//@ func cbor.overflows
+//@   props C11 C12(sweep)
+//@   sweep panic
+//@   pure
+//@   requires @kinds isintkind(uint(kind)) || isuintkind(uint(kind))
+//@   ensures @exact result == (u64 > umax(uint(kind)))
+
+//@ func cbor.overflowsInt
+//@   props C11 C12(sweep)
+//@   sweep panic
+//@   pure
+//@   requires @kinds isintkind(uint(kind))
+//@   ensures @exact result == (i64 < -1 - int64(nmax(uint(kind))))
+
+//@ func cbor.Decoder.decodePositive
+//@   props C11 C12(sweep) C10(sweep)
+//@   sweep bounds,panic
+//@   requires @len8 len(additional) <= 8
+//@   ensures @sound ? err == nil ==> (isintkind(uint(kind)) || isuintkind(uint(kind))) && tou64(additional) <= umax(uint(kind))
+//@   ensures @complete ? (isintkind(uint(kind)) || isuintkind(uint(kind))) && tou64(additional) <= umax(uint(kind)) ==> err == nil
+
+//@ func cbor.Decoder.decodeNegative
+//@   props C11 C12(sweep) C10(sweep)
+//@   sweep bounds,panic
+//@   requires @len8 len(additional) <= 8
+//@   ensures @sound ? err == nil ==> isintkind(uint(kind)) && tou64(additional) <= nmax(uint(kind))
+//@   ensures @complete ? isintkind(uint(kind)) && tou64(additional) <= nmax(uint(kind)) ==> err == nil
+
+//@ func cbor.decodeLen
+//@   props C12 C11 C10(sweep)
+//@   sweep bounds,panic,nooverflow
+//@   pure
+//@   requires @len8 len(additional) <= 8
+//@   ensures @bounded err == nil ==> 0 <= result && result < MaxArrayDecodeLength
+//@   ensures @value err == nil && highThreeBits != 5 ==> uint64(result) == ite(lowFiveBits < 24, uint64(lowFiveBits), tou64(additional))
+//@   ensures @mapvalue err == nil && highThreeBits == 5 ==> uint64(result) == 2*ite(lowFiveBits < 24, uint64(lowFiveBits), tou64(additional))
+
+//@ func cbor.Decoder.typeInfo
+//@   props C12 C11 C10(sweep)
+//@   sweep bounds,panic,make,nilmem
+//@   makelimit 8
+//@   ensures @bits err == nil ==> highThreeBits < 8 && lowFiveBits < 32
+//@   ensures @addlen err == nil ==> len(additional) == addlen(lowFiveBits)
+
+//@ func cbor.Decoder.unwrap
+//@   props C12 C10(sweep)
+//@   sweep bounds,panic,make,nilmem
+
+//@ func cbor.Decoder.decodeRaw
+//@   props C12 C10(sweep)
+//@   sweep bounds,panic,make,nilmem
+
+//@ func cbor.Decoder.decodeRawVal
+//@   props C12 C10(sweep)
+//@   sweep bounds,panic,make,nilmem
+//@   makelimit 100000
+//@   requires @bits highThreeBits < 8 && lowFiveBits < 32
+//@   requires @addlen len(additional) == addlen(lowFiveBits)
+
+// ---- canonical map key order (C11) ------------------------------------------------
+
+//@ func cbor.BytewiseLexicalSort$1
+//@   props C11 C12(sweep)
+//@   sweep bounds,panic
+//@   ghost gk
+//@   requires @idx 0 <= i && i < len(indices) && 0 <= j && j < len(indices)
+//@   requires @perm forall k in 0..len(indices): 0 <= indices[k] && indices[k] < len(keys)
+//@   requires @firstdiff 0 <= gk && gk < len(keys[indices[i]]) && gk < len(keys[indices[j]]) && keys[indices[i]][gk] != keys[indices[j]][gk]
+//@   requires @prefix forall t in 0..gk: keys[indices[i]][t] == keys[indices[j]][t]
+//@   invariant loop#1: 0 <= k && k <= gk
+//@   ensures @order result == (keys[indices[i]][gk] < keys[indices[j]][gk])
+
+// ---- decoder: totality and allocation bounds (C12) --------------------------
+// Allocation sites must be dominated by the MaxArrayDecodeLength check: make()
+// by "makelimit", reflect allocations by callassert on the size argument.
+
+//@ func cbor.Decoder.decodeVal
+//@   props C12 C10(sweep)
+//@   sweep bounds,panic,make,nilmem
+//@   makelimit 100000
+
+//@ func cbor.Decoder.decodeByteSlice
+//@   props C12 C10(sweep)
+//@   sweep bounds,panic,make,nilmem
+//@   makelimit 100000
+//@   requires @len8 len(additional) <= 8
+
+//@ func cbor.Decoder.decodeArray
+//@   props C12 C10(sweep)
+//@   sweep bounds,panic,make,nilmem
+//@   requires @len8 len(additional) <= 8
+
+//@ func cbor.Decoder.decodeArrayToSlice
+//@   props C12 C10(sweep)
+//@   sweep bounds,panic,make,nilmem
+//@   makelimit 100000
+//@   requires @len8 len(additional) <= 8
+//@   callassert Grow#1: @limit 0 <= n && n < MaxArrayDecodeLength
+//@   callassert SetLen#1: @limit 0 <= n && n < MaxArrayDecodeLength
+//@   callassert MakeSlice#1: @limit 0 <= len && len < MaxArrayDecodeLength && cap == len
+
+//@ func cbor.Decoder.decodeArrayToStruct
+//@   props C12 C10(sweep)
+//@   sweep bounds,make,nilmem
+//@   requires @len8 len(additional) <= 8
+
+//@ func cbor.Decoder.decodeMap
+//@   props C12 C10(sweep)
+//@   sweep bounds,panic,make,nilmem
+//@   requires @len8 len(additional) <= 8
+//@   callassert SetMapIndex#1: @comparable TypeComparable(u(actualKeyType))
+
+//@ func cbor.Decoder.decodeSimple
+//@   props C12 C10(sweep)
+//@   sweep bounds,panic,make,nilmem
+//@   requires @len8 len(additional) <= 8
+
+//@ func cbor.Decoder.Decode
+//@   props C12 C10(sweep)
+//@   sweep bounds,panic,make,nilmem
+
+//@ func cbor.Unmarshal
+//@   props C12
+//@   sweep bounds,panic,make,nilmem
+//@   modifies v
+//@   ensures @exact ? err == nil ==> len(buf.buf) - buf.off <= 0
+//@   trusted the reflection-driven decoder decodes a text/byte string into *string only from a head + that many bytes (C11/C12 not-decided part)
+//@   ensures! ? err == nil ==> hdr(len(*unwrap(v))) + len(*unwrap(v)) <= len(data)
+
+//@ func cbor.ByteWrap.UnmarshalCBORStream
+//@   props C12 C10(sweep)
+//@   sweep bounds,panic,make,nilmem
+//@   makelimit 100000
+//@   callassert LimitReader#1: @declared arg1 == int64(n)
+//@   callassert Decode#1: @confined Limited(u(arg0.r))
+//@   callassert ReadFull#1: @confined Limited(u(arg0))
+
+// the wrapped item is decoded from a reader confined to the declared length
+//@ func cbor.Bstr.UnmarshalCBORStream
+//@   props C12 C10(sweep)
+//@   sweep bounds,panic,make,nilmem
+//@   makelimit 100000
+//@   callassert LimitReader#1: @declared arg1 == int64(n)
+//@   callassert Decode#1: @confined Limited(u(arg0.r))
+
+//@ func cbor.X509Certificate.UnmarshalCBORStream
+//@   props C12 C10(sweep)
+//@   sweep bounds,panic,make,nilmem
+//@   makelimit 100000
+
+//@ func cbor.X509CertificateRequest.UnmarshalCBORStream
+//@   props C12 C10(sweep)
+//@   sweep bounds,panic,make,nilmem
+//@   makelimit 100000
+
+//@ func cbor.Timestamp.UnmarshalCBORStream
+//@   props C12 C10(sweep)
+//@   sweep bounds,panic,make,nilmem
+
+//@ func cbor.Tag.UnmarshalCBORStream
+//@   props C12 C10(sweep)
+//@   sweep bounds,panic,make,nilmem
+
+//@ func cbor.ArrayShift
+//@   props C20 C12(sweep) C10(sweep)
+//@   sweep bounds,panic,make,nilmem
+
+// ---- canonical map encoding (C11): keys are emitted in the order given by the
+// sort function over the MARSHALED keys; by default that is BytewiseLexicalSort.
+//@ func cbor.Encoder.encodeMap
+//@   props C11
+//@   sweep make,nilmem
+//@   requires @length length >= 0
+//@   callsites Slice 1
+//@   callsites Encode 3
+//@   callassert Slice#1: @sorted u(unwrap(arg0)) == u(indices)
+//@   callassert Slice#1: @default e.MapKeySort == nil ==> fnis(arg1, "cbor.BytewiseLexicalSort$1")
+//@   callassert Slice#1: @defaultidx e.MapKeySort == nil ==> u(*binding(arg1, "indices")) == u(indices)
+//@   callassert Slice#1: @defaultkeys e.MapKeySort == nil ==> u(*binding(arg1, "keys")) == u(marshaledKeys)
+//@   callassert Encode#2: @keybytes u(arg0) == u(e) && bytes(unwrap(arg1)) == bytes(marshaledKeys[i])
+//@   callassert Encode#3: @out u(arg0) == u(e)
